@@ -240,8 +240,12 @@ Proof. intros V. apply asc_marshal_rejects. intros Ha. apply V. apply validate_s
    every other index to 0 -- no index panics (31fa840) *)
 Theorem c11_hz i : i <= 12 -> to_hz i = Ok (nth (N.to_nat i) spec_iso_hz 0).
 Proof. exact (to_hz_table i). Qed.
-Theorem c11_hz_undefined i : 12 < i -> to_hz i = Ok 0.
+Theorem c11_hz_undefined i : 12 < i -> i < 256 -> to_hz i = Ok 0.     (* SampleRateIndex is a uint8 *)
 Proof. exact (to_hz_undefined i). Qed.
+
+(* the table in the source (wherever ToHz keeps it; regenerated on every run) starts with Table 35 *)
+Theorem c11_hz_source_table : firstn 13 aac_ToHz__table = map Z.of_N spec_iso_hz.
+Proof. reflexivity. Qed.
 
 (* object type <-> profile mapping of the accepted object types *)
 Theorem c11_profile_map :
@@ -344,6 +348,7 @@ Print Assumptions c11_asc_marshal.
 Print Assumptions c11_asc_marshal_rejects.
 Print Assumptions c11_hz.
 Print Assumptions c11_hz_undefined.
+Print Assumptions c11_hz_source_table.
 Print Assumptions c11_profile_map.
 Print Assumptions aac_adts_dec_total.
 Print Assumptions aac_asc_dec_total.
